@@ -396,7 +396,10 @@ def judge_3d(info, src, names_pkg, logm3_pkg, logd, k, avlo, avhi, f32=False, wa
 
 
 def observed_f32(fitter):
-    return np.asarray(fitter.models.fluxes.value).dtype == np.float32
+    try:
+        return np.asarray(fitter.models.fluxes.value).dtype == np.float32
+    except Exception:
+        return True          # cannot tell: use the single-precision tolerance (the looser one)
 
 
 def flag_vectors(n, need_fitted=0, need_k=None):
